@@ -15,16 +15,18 @@ class C39(core.Prop):
     drivers = ["mc_peek"]
     ready = True
     max_workers = 6
-    sizes = {"quick": 100, "thorough": 5000}
+    sizes = {"quick": 400, "thorough": 20000}
     technique = ("property-based testing (Hypothesis): metamorphic relation on real kernel states - a pair of co-enabled transitions "
                  "that the checker declares independent must commute (both orders executable, same state fingerprint)")
     rule = ("Hypothesis-generated synchronisation programs (vf/syncgen.py, model-checker subset: mutexes incl. recursive and try_lock, "
             "semaphores, condition variables incl. timed waits, barriers, blocking mailbox put/get, MC_random; 2-5 actors, <=10 "
-            "operations each; one case in three from vf/mcprog.py: asynchronous comms with wait/test, iprobe) run by mc_peek the way an application runs under the checker; a generated schedule prefix p (each step "
+            "operations each; 3 cases in 10 from mcprog.condvar_programs: 2-3 condition variables on 1-2 mutexes, waiters on different condvars, timed "
+            "waits, signal/broadcast, lockers of the shared mutex; 2 in 10 from mcprog.shared_object_programs: every actor on the same mutex / "
+            "semaphore / barrier / mailbox; 2 in 10 asynchronous comms with wait/test and iprobe) run by mc_peek the way an application runs under the checker; a generated schedule prefix p (each step "
             "picks one of the currently enabled actors) leads to a state s; for EVERY ordered pair (a, b) of actors enabled in s (and "
             "every alternative of multi-valued transitions) a forked copy executes a then b.  The checker-side transitions are rebuilt "
             "from the serialized observers exactly as AppSide/RemoteApp do.  Dependency is evaluated on executed transitions, in the "
-            "(the pairs are taken in the middle of the prefix and at its end, at most 16 branches per case: a fork costs 40-80 ms on this box when it is loaded) three ways the explorers use it: t_a[p.a] vs t_b[p.a.b] (execution order), t_b[p.b] vs t_a[p.b.a], and t_a[p.a] vs "
+            "(the pairs are taken in EVERY state along the prefix, pairs of one family (mutex+condvar, semaphore, barrier, comm) in every state, the other pairs in the last state, each pair of pending simcalls once, at most 30 branches per case) three ways the explorers use it: t_a[p.a] vs t_b[p.a.b] (execution order), t_b[p.b] vs t_a[p.b.a], and t_a[p.a] vs "
             "t_b[p.b] (b executed alone from s: what a sleep set compares).  Whenever one of them is 'independent': b is still "
             "enabled after a and a after b, and the fingerprints of the kernel state after p.a.b and p.b.a are equal (mutex "
             "owner/depth/queue, semaphore value/queue, condvar and barrier queues, mailbox queues, every actor's program counter "
@@ -38,16 +40,25 @@ class C39(core.Prop):
     def strategy(self, tier):
         @st.composite
         def cases(draw):
-            if draw(st.integers(0, 2)) == 2:      # asynchronous comms (wait/test), actor life cycle, iprobe
+            which = draw(st.sampled_from(["cv", "cv", "cv", "shared", "shared", "comm", "comm", "sync", "sync", "sync"]))
+            if which == "cv":          # several condvars on one mutex, waiters on different condvars, timed waits, notifiers, lockers
+                sc = draw(mcprog.condvar_programs())
+            elif which == "shared":    # everybody on the same mutex / semaphore / barrier / mailbox
+                sc = draw(mcprog.shared_object_programs())
+            elif which == "comm":      # asynchronous comms (wait/test), iprobe
                 # (not the "actors" programs: the interpreter's join-by-name looks the target up in the actor table outside any
                 # visible simcall, so its answer depends on the schedule in a way the checker cannot know: outside the domain)
                 _, sc = draw(mcprog.programs(kind=draw(st.sampled_from(["comm-async", "comm-async", "iprobe"]))))
             else:
                 kinds = draw(st.sampled_from(KINDS))
-                sc = draw(syncgen.programs(kinds=kinds, max_actors=4 if tier == "quick" else 5, max_ops=8 if tier == "quick" else 10, mc=True))
-            n = draw(st.sampled_from([1, 2, 3, 4, 6, 8, 10, 14, 20]))
+                sc = draw(syncgen.programs(kinds=kinds, max_actors=4 if tier == "quick" else 5, max_ops=8 if tier == "quick" else 10, mc=True,
+                                           max_mutex=draw(st.sampled_from([1, 2, 3])), max_sem=draw(st.sampled_from([1, 2])), max_cond=3))
+            n = draw(st.sampled_from([6, 8, 10, 12, 16, 20] if which == "cv" else [1, 2, 3, 4, 6, 8, 10, 14, 20]))
             picks = draw(st.lists(st.tuples(st.integers(0, 5), st.integers(0, 2)), min_size=n, max_size=n))
-            return {"scenario": sc, "picks": [list(p) for p in picks]}
+            # lazy prefix: completions (WAIT, test) are postponed as long as another actor can move, so that several of them are
+            # enabled together (two CONDVAR_WAIT, two MUTEX_WAIT, COMM_WAIT next to COMM_TEST...)
+            lazy = draw(st.sampled_from([0, 0, 1, 1, 1] if which == "cv" else [0, 0, 0, 1]))
+            return {"scenario": sc, "picks": [list(p) for p in picks], "lazy": lazy}
         return cases()
 
     def fixed_cases(self, tier):
@@ -57,8 +68,9 @@ class C39(core.Prop):
 
     def check(self, case):
         oc = core.Outcome()
-        req = {"scenario": case["scenario"], "schedule": [{"pick": k, "tc": j} for k, j in case["picks"]], "branches": "pairs",
-               "solo": True, "dump": "none", "every": [len(case["picks"]) // 2], "maxbranches": 16}
+        lazy = bool(case.get("lazy"))
+        req = {"scenario": case["scenario"], "schedule": [{"pick": k, "tc": j, "lazy": lazy} for k, j in case["picks"]], "branches": "pairs",
+               "solo": True, "dump": "none", "every": True, "related_only_before_end": True, "maxbranches": 30, "fields": True}
         p = peek.run(req)
         if p.r.wall_exceeded:
             raise core.Inconclusive()
@@ -155,6 +167,7 @@ class C39(core.Prop):
         indep = [how for how, v in evals if v is False]
         fam = sorted({x[0] for x in peek.objects_of(ta["chk"])} | {x[0] for x in peek.objects_of(tb["chk"])}) or ["other"]
         oc.labels.append("pair-" + "+".join(fam))
+        oc.labels.append(self.pair_class(ta, tb) + (":indep" if indep else ":dep"))
         if not indep:
             oc.labels.append("pair-dependent")
             return False
@@ -179,6 +192,18 @@ class C39(core.Prop):
         if same_obj:
             oc.labels.append("independent-same-object")
         return same_obj or async_wait
+
+    @staticmethod
+    def pair_class(ta, tb):
+        """pair:<type>/<type>:<which object ids the two decoded transitions share> - the dependency rules key on exactly one id"""
+        (na, fa), (nb, fb) = sorted([(ta["tname"], ta.get("chkf") or {}), (tb["tname"], tb.get("chkf") or {})], key=lambda x: x[0])
+        rel = []
+        for k in ("mutex", "cond", "sem", "barrier", "mbox", "comm"):
+            if k == "comm" and not (na in ("COMM_WAIT", "COMM_TEST") and nb in ("COMM_WAIT", "COMM_TEST")):
+                continue      # the comm id of a send/receive executed first in its own fork is the same number in both forks
+            if k in fa and k in fb:
+                rel.append(("same-" if fa[k] == fb[k] else "diff-") + k)
+        return "pair:%s/%s:%s" % (na, nb, "-".join(rel) or "no-common-kind")
 
     @staticmethod
     def kind_sig(ta, tb):
